@@ -1,0 +1,74 @@
+//! Verification hook for properties C08/C20 (only compiled with `--cfg redb_verif`), add-only:
+//! an inert-unless-started, per-thread log of the calls entering `CheckedBackend` (the I/O latch in
+//! `tree_store/page_store/cached_file.rs`) together with the latch flags as they were on entry.
+//! A harness backend can push its own events into the same log, which yields one ordered sequence
+//! "wrapper call, backend call it caused (if any), next wrapper call, ..." to replay against a model
+//! of the latch. Nothing in here changes behaviour of the crate.
+
+use alloc::vec::Vec;
+use core::cell::RefCell;
+use core::sync::atomic::{AtomicBool, Ordering};
+
+/// The `CheckedBackend` method that was entered (`Drop` = its `Drop` impl)
+#[derive(Clone, Copy, Debug, PartialEq, Eq)]
+pub enum VLatchCall {
+    Len,
+    Read,
+    Write,
+    WriteBestEffort,
+    SetLen,
+    SyncData,
+    Close,
+    Drop,
+}
+
+#[derive(Clone, Copy, Debug, PartialEq, Eq)]
+pub enum VLatchEvent {
+    /// entry into a `CheckedBackend` method; the flags are the values on entry
+    Enter {
+        call: VLatchCall,
+        io_failed: bool,
+        closed: bool,
+    },
+    /// pushed by the harness' storage backend through [`latch_log_backend`]: a call reached the
+    /// backend. `op` is the harness' own code for the operation, `ok` the result it returned
+    Backend { op: u8, ok: bool },
+}
+
+std::thread_local! {
+    static LOG: RefCell<Option<Vec<VLatchEvent>>> = const { RefCell::new(None) };
+}
+
+/// Start (or restart, dropping earlier events) logging on the calling thread
+pub fn latch_log_start() {
+    LOG.with(|l| *l.borrow_mut() = Some(Vec::new()));
+}
+
+/// Stop logging on the calling thread and return the events logged since `latch_log_start`
+pub fn latch_log_take() -> Vec<VLatchEvent> {
+    LOG.with(|l| l.borrow_mut().take().unwrap_or_default())
+}
+
+/// For the harness' backend: record that a call reached it (no-op unless logging is started)
+pub fn latch_log_backend(op: u8, ok: bool) {
+    LOG.with(|l| {
+        if let Some(v) = l.borrow_mut().as_mut() {
+            v.push(VLatchEvent::Backend { op, ok });
+        }
+    });
+}
+
+pub(crate) fn latch_enter(call: VLatchCall, io_failed: &AtomicBool, closed: &AtomicBool) {
+    // try_with: Drop of a CheckedBackend may run during thread teardown
+    let _ = LOG.try_with(|l| {
+        if let Ok(mut g) = l.try_borrow_mut()
+            && let Some(v) = g.as_mut()
+        {
+            v.push(VLatchEvent::Enter {
+                call,
+                io_failed: io_failed.load(Ordering::Acquire),
+                closed: closed.load(Ordering::Acquire),
+            });
+        }
+    });
+}
